@@ -9,6 +9,14 @@ import subprocess
 import sys
 import tempfile
 import xml.etree.ElementTree as ET
+import signal
+
+
+def _default_sigint():
+    # background jobs inherit SIGINT ignored; one suite test raises SIGINT
+    # in itself and must see the default disposition
+    signal.signal(signal.SIGINT, signal.default_int_handler)
+
 
 repo = os.path.abspath(sys.argv[1] if len(sys.argv) > 1 else "/repo")
 base = json.load(open("/root/.vp/BASELINE.json"))
@@ -30,7 +38,8 @@ atexit.register(shutil.rmtree, hyp, True)
 p = subprocess.run(["/venv/bin/python", "-B", "-m", "pytest", "-q", "-p",
                     "no:cacheprovider", "--timeout=900",
                     "--continue-on-collection-errors", "--junitxml=" + xml],
-                   cwd=repo, env=env, capture_output=True, text=True)
+                   cwd=repo, env=env, capture_output=True, text=True,
+                   preexec_fn=_default_sigint)
 passed = set()
 failed = set()
 for tc in ET.parse(xml).getroot().iter("testcase"):
@@ -60,7 +69,8 @@ for m in missing:
         os.makedirs(hyp, exist_ok=True)
         q = subprocess.run(["/venv/bin/python", "-B", "-m", "pytest", "-q",
                             "-p", "no:cacheprovider", "--timeout=900", node],
-                           cwd=repo, env=env, capture_output=True, text=True)
+                           cwd=repo, env=env, capture_output=True, text=True,
+                           preexec_fn=_default_sigint)
         if q.returncode == 0:
             ok = True
             break
